@@ -124,7 +124,24 @@ def true_gap(P, errs_H, gams_H, err_q, gam_q, lam, B):
     return max(L - L_low, L_high - L), (L, L_low, L_high)
 
 
+def _tuned(case):
+    """With case['tune_bound'] = delta: a difference bound placed delta (1e-7 / 3e-8) below the largest constraint value
+    of an unconstrained error minimiser of the class, so that the constrained optimum mixes that classifier with weight
+    1 - t and others with a total weight t of the order of delta - tiny but positive probabilities."""
+    delta = case.get("tune_bound")
+    if not delta or case["bound"]["kind"] == "ratio":
+        return case
+    P0 = R.Problem(dict(case, bound={"kind": "diff", "value": 0.0}))
+    _, errs, gams = P0.hypothesis_class()
+    cands = np.nonzero(errs <= errs.min() + 1e-12)[0]
+    d = min(float(np.max(gams[i])) for i in cands)  # gamma entries against a zero bound: r*mean - mean with r = 1
+    if d <= 10 * delta:
+        return case
+    return dict(case, bound={"kind": "diff", "value": d - delta}, lp=True)
+
+
 def check(case):
+    case = _tuned(case)
     eg, X = _fit(case)
     P = R.Problem(case)
     B = 1.0 / case["eps"]
@@ -242,6 +259,9 @@ def check(case):
         tags.append("groups3")
     if case["eps"] < 1e-3:
         tags.append("B>1000")
+    wv = np.asarray(eg.weights_, dtype=float)
+    if ((wv > 0) & (wv < 1e-5)).any():
+        tags.append("tiny_positive_weight")
     return tags
 
 
@@ -254,6 +274,7 @@ def _cases(draw):
     case["eta0"] = draw(st.sampled_from([0.5, 2.0, 8.0]))
     case["lp"] = draw(st.booleans())
     case["costs"] = draw(st.sampled_from([None, None, None, {"fp": 0.5, "fn": 1.0}, {"fp": 1.0, "fn": 0.25}, {"fp": 1.0, "fn": 1.0}]))
+    case["tune_bound"] = draw(st.sampled_from([None, None, None, 1e-7, 3e-8]))
     return case
 
 
